@@ -36,6 +36,14 @@ from ..resolve import walk_own
 MACHINE = 'bardolph.vm.machine'
 
 
+def _both_views(f):
+    """nodes of a function as written and as normalised (helpers expanded)"""
+    yield from ast.walk(f.node)
+    o = getattr(f, 'original_node', None)
+    if o is not None and o is not f.node:
+        yield from ast.walk(o)
+
+
 def _self_stores(node):
     out = set()
     for n in ast.walk(node):
@@ -126,7 +134,7 @@ class InitAnalysis:
         if self.all_attr_stores is None:
             names, ext = set(), set()
             for f in self.A.repo.all_functions():
-                for n in ast.walk(getattr(f, 'original_node', f.node)):
+                for n in _both_views(f):
                     for t in _store_targets(n):
                         if isinstance(t, ast.Attribute):
                             names.add(t.attr)
@@ -235,7 +243,7 @@ class InitAnalysis:
         if self._mentions is None:
             names = {}
             for f in self.A.repo.all_functions():
-                for n in ast.walk(getattr(f, 'original_node', f.node)):
+                for n in _both_views(f):
                     if isinstance(n, ast.Attribute):
                         names[n.attr] = names.get(n.attr, 0) + 1
                     elif isinstance(n, ast.Name):
@@ -513,7 +521,7 @@ def r01m(R):
     # members some code mentions, or the lexer accepts as a word
     mentioned = set()
     for f in A.repo.all_functions():
-        for n in ast.walk(getattr(f, 'original_node', f.node)):
+        for n in _both_views(f):
             if isinstance(n, ast.Attribute) and isinstance(n.value, ast.Name) \
                     and n.value.id == 'Register' and n.attr in members:
                 mentioned.add(n.attr)
